@@ -278,6 +278,17 @@ func (a *c09AsyncWriter) AsyncWriteAll(b []byte, cb sonic.AsyncCallback) {
 	do()
 }
 
+// AsyncWrite may accept a prefix, which is what distinguishes it from
+// AsyncWriteAll; an implementation of AsyncWriteTo built on it is judged by the
+// same oracle (what it reports is what the writer received and what leaves
+// the read area).
+func (a *c09AsyncWriter) AsyncWrite(b []byte, cb sonic.AsyncCallback) {
+	if len(b) > 1 && a.d.w.Chance(1, 2) {
+		b = b[:1+a.d.w.Choose(len(b)-1)]
+	}
+	a.AsyncWriteAll(b, cb)
+}
+
 func runC09(c *Ctx) {
 	w := c.W
 	d := &c09{c: c, w: w, b: sonic.NewByteBuffer()}
@@ -570,9 +581,11 @@ func runC09(c *Ctx) {
 				var gotErr error
 				var gotN int
 				b.AsyncWriteTo(aw, func(err error, n int) { calls++; gotErr, gotN = err, n })
-				if aw.fire != nil {
+				for i := 0; aw.fire != nil && i < 1000; i++ {
 					d.check(op + " (in flight)")
-					aw.fire()
+					f := aw.fire
+					aw.fire = nil
+					f()
 				}
 				if calls != 1 {
 					c.Failf("async-callback-count", "AsyncWriteTo invoked its callback %d times", calls)
